@@ -608,7 +608,7 @@ def main(argv):
         hints = [f.get("hint") for f in ctx.failures if f.get("hint")]
         try:
             found = mod.oracle(ctx, hints) if hasattr(mod, "oracle") else []
-            if any(h and ("stress" in h or (isinstance(h.get("case"), dict) and "q0" in h["case"])) for h in hints):
+            if any(h and ("stress" in h or (isinstance(h.get("case"), dict) and "q0" in h["case"])) for h in hints) or (ctx.failures and hasattr(mod, "sc")):
                 # call sequences (one-argument siblings, cached repeats) on which the solver's result stopped being a
                 # function of its arguments: replayed on the implementation against a fresh process / an uncached call;
                 # and, for every solver request on which model and implementation disagree, the consistency probes that
